@@ -4,6 +4,7 @@ import Clover.Spec.Spec
 import Clover.Proofs.RefineReads
 import Clover.Proofs.RefineFindAll
 import Clover.Proofs.ReadsExact
+import Clover.Proofs.DerivedAnyPlan
 /-! # C09 — Count, Exists, FindFirst, ForEach and FindById agree with FindAll; reads are pure -/
 namespace CV.Props.C09
 open CV
@@ -92,5 +93,47 @@ theorem source_decision_logic : CV.Facts.logicC09 = [
   "clover.DB.Exists: { doc, err := db.FindFirst(q) return doc != nil, err }", 
   "clover.DB.FindFirst: { docs, err := db.FindAll(q.Limit(1)) var doc *d.Document if len(docs) > 0 { doc = docs[0] } return doc, err }", 
   "clover.DB.countCollection: { size, err := db.getCollectionSize(q.Collection()) size -= q.GetSkip() if size < 0 { size = 0 } if q.GetLimit() >= 0 && q.GetLimit() < size { return q.GetLimit(), err } return size, err }"] := by rfl
+
+/-- **The derived reads agree with `FindAll` whatever plan serves the query** — no domain hypothesis at
+    all: for every index set, criteria, sort and window, on the model's own answers, `Count` (with
+    criteria) is the length of `FindAll`, `Exists` is non-emptiness and `FindFirst` the head of
+    `FindAll` with limit 1, `ForEach` visits `FindAll`'s sequence (its prefix when the consumer stops). -/
+theorem derived_reads_agree_any_plan (s : Spec.State) (σ : KVS) (hw : WF s) (hr : Rep s σ) (q : Query)
+    (coll : Spec.Coll) (hl : Spec.lookup q.coll s = some coll) :
+    ∃ res res₁,
+      (withTx false (Op.body likeFn fnFam (.findAll q)) noFault σ).1 = .ok (.docs res) ∧
+      (withTx false (Op.body likeFn fnFam (.findAll { q with limit := 1 })) noFault σ).1 = .ok (.docs res₁) ∧
+      (q.crit ≠ none → (withTx false (Op.body likeFn fnFam (.count q)) noFault σ).1 = .ok (.int res.length)) ∧
+      (withTx false (Op.body likeFn fnFam (.exists_ q)) noFault σ).1 = .ok (.bool (!res₁.isEmpty)) ∧
+      (withTx false (Op.body likeFn fnFam (.findFirst q)) noFault σ).1 = .ok (.docOpt res₁.head?) ∧
+      (∀ k, (withTx false (Op.body likeFn fnFam (.forEach q k)) noFault σ).1 = .ok (.docs (seenBy k res))) :=
+  CV.derived_reads_agree_any_plan likeFn fnFam s σ hw hr q coll hl
+
+/-- **`Exists` and `Count` through any plan equal the specification's** (key domain; `Count` without
+    criteria takes the stored size and needs no domain). -/
+theorem exists_exact_any_plan (s : Spec.State) (σ : KVS) (hw : WF s) (hr : Rep s σ) (q : Query)
+    (coll : Spec.Coll) (hl : Spec.lookup q.coll s = some coll) (hdomain : KeyDomain q coll) :
+    (withTx false (Op.body likeFn fnFam (.exists_ q)) noFault σ).1 = (Spec.step likeFn fnFam s (.exists_ q)).1 :=
+  CV.exists_exact_any_plan likeFn fnFam s σ hw hr q coll hl hdomain
+
+theorem count_exact_any_plan (s : Spec.State) (σ : KVS) (hw : WF s) (hr : Rep s σ) (q : Query)
+    (coll : Spec.Coll) (hl : Spec.lookup q.coll s = some coll) (hdomain : KeyDomain q coll) :
+    (withTx false (Op.body likeFn fnFam (.count q)) noFault σ).1 = (Spec.step likeFn fnFam s (.count q)).1 :=
+  CV.count_any_plan likeFn fnFam s σ hw hr q coll hl hdomain
+
+/-- **`ForEach` through any plan** visits, position by position up to ties of the sort options, what the
+    specification visits — the whole answer, or its first `max n 1` documents for a consumer that
+    stops after `n`. -/
+theorem forEach_up_to_ties_any_plan (s : Spec.State) (σ : KVS) (hw : WF s) (hr : Rep s σ) (q : Query) (k : Option Nat)
+    (coll : Spec.Coll) (hl : Spec.lookup q.coll s = some coll) (hdomain : KeyDomain q coll)
+    (hsd : SortDom q.sort ((coll.docs.map (·.2)).filter (fun d => satOpt likeFn fnFam d q.crit)))
+    (hnn : (choosePlan coll.indexes q).2 = true →
+      ∀ o ∈ q.sort, ∀ d ∈ (coll.docs.map (·.2)).filter (fun d => satOpt likeFn fnFam d q.crit),
+        d.has o.1 = true → d.get o.1 ≠ .null) :
+    ∃ res spec, (withTx false (Op.body likeFn fnFam (.forEach q k)) noFault σ).1 = .ok (.docs res) ∧
+      (Spec.step likeFn fnFam s (.forEach q k)).1 = .ok (.docs spec) ∧
+      spec = seenBy k (Spec.findAll likeFn fnFam q coll) ∧
+      List.Forall₂ (fun a b => compareDocuments a b q.sort = 0) res spec :=
+  forEach_classwise_any_plan likeFn fnFam s σ hw hr q k coll hl hdomain hsd hnn
 
 end CV.Props.C09
